@@ -17,3 +17,18 @@ def polygon_contract_scenarios():
 def scn_polygon_contract(c, which, args):
     from props import C02
     return getattr(C02, which)(c, **args)
+
+
+def lookup_contract_scenarios():
+    """Convention.get_index_for_point (contract used by C05's point selection, verified by C04): its scenarios, re-run where it is used"""
+    from props import C04
+    out = []
+    for sc in C04.scenarios('quick'):
+        if sc['fn'] in ('scn_lookup', 'scn_select_point'):
+            out.append({'name': 'contract ' + sc['name'], 'fn': 'scn_lookup_contract', 'kwargs': {'which': sc['fn'], 'args': sc['kwargs']}})
+    return out
+
+
+def scn_lookup_contract(c, which, args):
+    from props import C04
+    return getattr(C04, which)(c, **args)
